@@ -132,6 +132,29 @@ def run_families(unit, acc):
                 if len(fam_members) != len(pat) + 3:
                     acc.violation("family-member-count:" + fam, "%s numbered %s + 3 additions: the saved zip holds %d members of the family (%s)" % (fam, pat, len(fam_members), sorted(fam_members)[:8]), wit)
             acc.case(desc=wit, nontrivial=pat != list(range(1, len(pat) + 1)), cls="family:" + fam)
+    if unit["shard"] == 0:
+        # one more irregular deck: the notes master is referred to by the notes slides only (the presentation part's own
+        # reference is gone); a further notes slide is then created
+        from props import c12
+
+        prs = pptx.Presentation()
+        for _ in range(2):
+            prs.slides.add_slide(prs.slide_layouts[6])
+        prs.slides[0].notes_slide.notes_text_frame.text = "n"
+        buf = io.BytesIO()
+        prs.save(buf)
+        prs = pptx.Presentation(io.BytesIO(c12.strip_notes_master_ref(buf.getvalue())))
+        wit = {"family": "notesMaster", "numbering": "unreferenced-by-presentation"}
+        try:
+            _ = prs.slides[1].notes_slide
+            out = io.BytesIO()
+            prs.save(out)
+            dup = [n_ for n_, c_ in Counter(zipfile.ZipFile(io.BytesIO(out.getvalue())).namelist()).items() if c_ > 1]
+            if dup:
+                acc.violation("notes-master-duplicated:presentation-does-not-refer-to-it", "a second /ppt/notesMasters/notesMaster1.xml is created beside the one the notes slides refer to; saved zip holds %s twice" % dup[:2], wit)
+        except Exception as e:  # noqa
+            acc.violation("family-addition-raises:notesMaster:%s" % type(e).__name__, "notes slide on a deck whose presentation part does not refer to its notes master: %r" % e, wit)
+        acc.case(desc=wit, nontrivial=True, cls="family:notesMaster")
     for k, v in monitors.SINK.counters.items():
         acc.counters[k] = acc.counters.get(k, 0) + v
     monitors.SINK.counters.clear()
